@@ -93,6 +93,7 @@ func c20viewport(r *core.Run, idx int) {
 	ox, oy := rg.IntN(parent.w), rg.IntN(parent.h)
 	iw, ih := rg.IntN(parent.w-ox+2)-1, rg.IntN(parent.h-oy+2)-1
 	vp := views.NewViewPort(parent, ox, oy, iw, ih)
+	c20locked, c20lw, c20lh := false, 0, 0
 	tr("NewViewPort(parent %dx%d, %d,%d,%d,%d)", parent.w, parent.h, ox, oy, iw, ih)
 	wantOX, wantOY := ox, oy
 	fail := func(sig, what string) {
@@ -256,13 +257,25 @@ func c20viewport(r *core.Run, idx int) {
 		default:
 			w, h := rg.IntN(60), rg.IntN(40)
 			lk := rg.IntN(2) == 0
+			if rg.IntN(3) == 0 {
+				// the size the content already has, only the locked flag (possibly) changes
+				w, h = vp.GetContentSize()
+			}
 			vp.SetContentSize(w, h, lk)
 			tr("SetContentSize(%d,%d,%v)", w, h, lk)
 			if gw, gh := vp.GetContentSize(); gw != w || gh != h {
 				fail("setcontentsize", "SetContentSize not reflected by GetContentSize")
 				return
 			}
+			c20locked, c20lw, c20lh = lk, w, h
 			continue
+		}
+		if c20locked {
+			// locked content keeps its size whatever is drawn beyond it
+			if gw, gh := vp.GetContentSize(); gw != c20lw || gh != c20lh {
+				fail("locked-content-grew", fmt.Sprintf("the content size was locked at %dx%d, after the last operation it is %dx%d", c20lw, c20lh, gw, gh))
+				return
+			}
 		}
 		ax, ay := inLimits()
 		x1, y1, _, _ := vp.GetVisible()
